@@ -8,6 +8,22 @@ resource exactly one fault of each applicable kind is injected, so the culprit
 line and resource are known by construction.  Oracle: the raised error carries
 that 1-based line number and that resource's URL (conversion errors also the
 offending text and the original ValueError instance).
+
+Wave 2 - the directive-state axis.  The parser carries state from earlier lines into
+later ones (the table of %define'd names, shared by all resources of one load), and a
+'$' construct is expanded in four kinds of line, not only in key values.  So the
+substitution / definition faults are additionally enumerated as a full product
+   carrier   (where the bad text stands: key value, multikey value, first %define of a
+              name, %define of a name that IS ALREADY DEFINED, %include argument,
+              %import argument)
+ x construct (six malformed / unresolvable '$' forms)
+ x history   (where the earlier definition that the line refers to or repeats lives:
+              nowhere, the previous line, the top of the main resource (= the including
+              resource when the fault is in an included one), another resource included
+              before, or defined twice already (top of main + a legal repeat just before))
+plus the history-dependent faults that contain no bad '$' at all (conflicting redefinition of
+a name defined elsewhere, use of a name before the line that defines it, a value that becomes
+unconvertible only through a name defined elsewhere), at every line position of every resource.
 """
 from vz import core
 from vz.gen import corpus as C
@@ -18,6 +34,9 @@ from vz.props.c06 import balanced
 
 MAIN = "file:///v/dir/main.conf"
 INC = ["file:///v/dir/inc/one.conf", "file:///v/dir/inc/deeper/two.conf"]
+DEFS = "file:///v/dir/defs/names.conf"      # history 'sibling': definitions made in a resource included before
+REL = {INC[0]: "inc/one.conf", INC[1]: "deeper/two.conf", DEFS: "defs/names.conf"}
+UNSET_ENV = "VZ_C08_NEVER_SET"
 
 SINT = "vz.harness.dt.strict_int"
 
@@ -116,6 +135,109 @@ def faults_for(S, tname, before, after, used_names):
     return out
 
 
+
+# ---------------------------------------------------------------------------
+# wave 2: the directive-state axis (carrier x construct x history)
+
+REPL = "SubstitutionReplacementError"
+SUBSYN = ("SubstitutionSyntaxError", "ConfigurationSyntaxError")
+HN = "zh"                   # the name the history defines
+HV = "hv"                   # ... and its value
+CONSTRUCTS = [              # (label, bad text, expected exception class)
+    ("undefined-name", "$undefinedname", REPL),
+    ("lone-dollar-at-end", "v$", SUBSYN),
+    ("unclosed-brace", "${x", SUBSYN),
+    ("dollar-before-non-name", "$-x", SUBSYN),
+    ("unset-environment-name", "$(%s)" % UNSET_ENV, REPL),
+    ("unclosed-paren", "$(x", SUBSYN),
+]
+HISTORIES = ["none", "prev-line", "main-top", "sibling-resource", "defined-twice"]
+CARRIERS = ["key-value", "multikey-value", "define-first", "define-again", "include-argument", "import-argument"]
+BASE_CONSTRUCTS = 3         # key-value x history none x the first three constructs are base kinds already
+
+
+def with_history(hist, line, value=HV):
+    """Place `line` after a definition of HN made where `hist` says.
+    -> (lines injected at the position, index of the culprit among them, extra lines elsewhere)"""
+    d = "%%define %s %s" % (HN, value)
+    if hist == "none":
+        return [line], 0, None
+    if hist == "prev-line":
+        return [d, line], 1, None
+    if hist == "main-top":
+        return [line], 0, {"top": [d]}
+    if hist == "sibling-resource":
+        return [line], 0, {"sibling": ["# names shared by all resources", d]}
+    if hist == "defined-twice":
+        return [d, line], 1, {"top": [d]}
+    raise ValueError(hist)
+
+
+def carrier_lines(S, tname):
+    """carrier -> format string with one hole for the text that is expanded"""
+    items = M.eff_items(S, tname)
+    keys = [it for it in items if isinstance(it, (M.Key, M.MultiKey))]
+    single_str = [it for it in keys if isinstance(it, M.Key) and it.datatype == "string"]
+    multi_str = [it for it in keys if isinstance(it, M.MultiKey) and it.datatype == "string"]
+    out = {}
+    if keys:
+        out["key-value"] = (single_str or keys)[0].name + " %s"
+    if multi_str:
+        out["multikey-value"] = multi_str[0].name + " %s"
+    out["define-first"] = "%%define zfresh %s"
+    out["define-again"] = "%%define " + HN + " %s"
+    out["include-argument"] = "%%include %s"
+    out["import-argument"] = "%%import %s"
+    return out
+
+
+def state_faults(S, tname, before, after):
+    """The wave-2 family for one insertion point: 7-tuples
+    (kind, lines, culprit index, class, value, extra lines elsewhere, axes)."""
+    out = []
+    cl = carrier_lines(S, tname)
+    for carrier in CARRIERS:
+        if carrier not in cl:
+            continue
+        for hist in HISTORIES:
+            if carrier == "define-again" and hist == "none":
+                continue        # that IS define-first
+            for ci, (cname, bad, cls) in enumerate(CONSTRUCTS):
+                if carrier == "key-value" and hist == "none" and ci < BASE_CONSTRUCTS:
+                    continue
+                text = bad if hist == "none" else "${%s}/%s" % (HN, bad)
+                inj, culprit, extra = with_history(hist, cl[carrier] % text)
+                out.append(("sub/%s/%s/%s" % (carrier, cname, hist), inj, culprit, cls, None, extra,
+                            {"carrier": carrier, "construct": cname, "history": hist}))
+        if carrier != "define-again":
+            # the name is defined, but only on the NEXT line: names must be defined before they are used
+            out.append(("sub/%s/use-before-define/next-line" % carrier,
+                        [cl[carrier] % "$zlate", "%define zlate v"], 0, REPL, None, None,
+                        {"carrier": carrier, "construct": "use-before-define", "history": "next-line"}))
+    SYN = "ConfigurationSyntaxError"
+    for hist in HISTORIES[1:]:
+        if hist != "prev-line":      # prev-line is the base kind 'conflicting-redefinition'
+            inj, culprit, extra = with_history(hist, "%%define %s other" % HN)
+            out.append(("sub/define-again/conflicting-value/%s" % hist, inj, culprit, SYN, None, extra,
+                        {"carrier": "define-again", "construct": "conflicting-value", "history": hist}))
+        inj, culprit, extra = with_history(hist, "%%define %s ${%s}x" % (HN, HN))
+        out.append(("sub/define-again/conflicting-after-expansion/%s" % hist, inj, culprit, SYN, None, extra,
+                    {"carrier": "define-again", "construct": "conflicting-after-expansion", "history": hist}))
+    items = M.eff_items(S, tname)
+    for it in items:
+        if not isinstance(it, (M.Key, M.MultiKey)) or it.datatype != SINT:
+            continue
+        if isinstance(it, M.Key) and it.name in (before | after):
+            continue
+        for hist in HISTORIES[1:]:
+            # the text is only unconvertible through a name defined elsewhere: the culprit is the line of the value
+            inj, culprit, extra = with_history(hist, "%s $%s" % (it.name, HN), value="1O")
+            out.append(("sub/%s/unconvertible-through-name/%s" % (it.name, hist), inj, culprit,
+                        "DataConversionError", "1O", extra,
+                        {"carrier": "int-" + type(it).__name__.lower(), "construct": "unconvertible-through-name",
+                         "history": hist}))
+    return out
+
 # ---------------------------------------------------------------------------
 
 def seed_lines(events):
@@ -200,9 +322,7 @@ def materialise(layout):
         out = []
         for l in ls:
             if isinstance(l, tuple):
-                target = l[1]
-                rel = "inc/one.conf" if target == INC[0] else "deeper/two.conf"
-                out.append("%include " + rel)
+                out.append("%include " + REL[l[1]])
             else:
                 out.append(l)
         files[url] = "\n".join(out) + "\n"
@@ -225,12 +345,29 @@ def flat_context(layout):
 
 def check_fault(sch, layout, url, idx, fault, acc, mid, depth_of_resource):
     import ZConfig
-    kind, inj, culprit, cls, value = fault
+    kind, inj, culprit, cls, value = fault[:5]
+    extra, axes = (fault[5], fault[6]) if len(fault) > 5 else (None, None)
     lay = {u: list(ls) for u, ls in layout.items()}
     lay[url][idx:idx] = ["    " + x for x in inj]
+    shift = 0
+    if extra:
+        # the earlier definition lives elsewhere: at the top of the main resource and / or in a resource
+        # that the main resource includes first
+        top = list(extra.get("top", ()))
+        if "sibling" in extra:
+            lay[DEFS] = list(extra["sibling"])
+            top = [("include", DEFS)] + top
+        lay[MAIN][0:0] = top
+        if url == MAIN:
+            shift = len(top)
     files = materialise(lay)
-    exp_line = idx + culprit + 1 if culprit is not None else None
+    exp_line = idx + shift + culprit + 1 if culprit is not None else None
     case = {"member": mid, "files": files, "fault": kind, "resource": url, "culprit_line": exp_line}
+    if axes:
+        where = "main" if url == MAIN else "included-%d" % depth_of_resource
+        acc.extra["axis carrier=%s" % axes["carrier"]] += 1
+        acc.extra["axis construct=%s" % axes["construct"]] += 1
+        acc.extra["axis history=%s fault-in=%s" % (axes["history"], where)] += 1
     acc.ev()
     acc.transitions += 1
     acc.current = case
@@ -255,6 +392,8 @@ def check_fault(sch, layout, url, idx, fault, acc, mid, depth_of_resource):
     acc.cls("rejected:" + kind)
     empty_form = kind.endswith("-empty")
     tags = {"kind": "position", "fault": kind, "empty_form": empty_form, "exc": got["class"]}
+    if axes:
+        tags.update(axes)
     if exp_line is not None and (got["lineno"] != exp_line or got["url"] != url):
         tags["what"] = ("lineno" if got["lineno"] != exp_line else "") + ("url" if got["url"] != url else "")
         acc.violation("wrong-or-missing-position", case, got, {"lineno": exp_line, "url": url}, tags=tags)
@@ -301,11 +440,14 @@ DEEP_SEEDS = [
 ]
 
 
-def check_seed(S, sch, events, acc, mid, tier, decorated=False):
+def check_seed(S, sch, events, acc, mid, tier, decorated=False, state_axis=False, base=True):
     lines = seed_lines(events)
     if decorated:
         lines = decorate(lines)
-    acc.states += 1
+    if base:
+        acc.states += 1
+    if state_axis:
+        acc.extra["seeds with the directive-state axis"] += 1
     for layout in layouts(lines, tier):
         flat = flat_context(layout)
         flat_lines = [f[2] for f in flat]
@@ -342,8 +484,11 @@ def check_seed(S, sch, events, acc, mid, tier, decorated=False):
         for url, idx, fp in points:
             tname = conts[fp]
             before, after, used = keys_present(flat_lines, fp)
-            for fault in faults_for(S, tname, before, after, used):
+            for fault in (faults_for(S, tname, before, after, used) if base else ()):
                 check_fault(sch, layout, url, idx, fault, acc, mid, depth[url])
+            if state_axis:
+                for fault in state_faults(S, tname, before, after):
+                    check_fault(sch, layout, url, idx, fault, acc, mid, depth[url])
 
 
 def _descendants(layout, url):
@@ -354,21 +499,27 @@ def _descendants(layout, url):
     return out
 
 
+STATE_AXIS_EVERY = {"quick": 8, "thorough": 4}     # seeds (per first event) that get the wave-2 product
+SEED_PARTS = {"quick": 1, "thorough": 8}           # shards per first event (balance only: same explored set)
+
+
 def shard(arg, acc):
-    first, depth, tier = arg
+    first, depth, tier = arg[:3]
+    part, parts = arg[3:] if len(arg) > 3 else (0, 1)   # the seeds of one first event, dealt round-robin to `parts` shards
     S2 = schema()
     xml = M.render(S2)
     sch = H.load_schema(xml)
     mid = {"schema": xml}
     n = 0
     cap = 40 if tier == "quick" else 400
-    if first == ("k", "zz", "v"):
-        # this (rejected) first event has no accepted continuation: its shard runs the hand-written
-        # deep seeds instead
-        for ev in DEEP_SEEDS:
-            assert H.load(sch, H.render_events(ev))[0] == "ok", ev
-            check_seed(S2, sch, ev, acc, mid, "thorough")
-            check_seed(S2, sch, ev, acc, mid, "thorough", decorated=True)
+    if first[0] == "deep":
+        # the hand-written deep seeds (all ranges as include layouts): one shard per spelling for the base
+        # kinds, one more for the directive-state axis on the plain spelling
+        ev, dec, part = DEEP_SEEDS[first[1]], first[2], first[3]
+        assert H.load(sch, H.render_events(ev))[0] == "ok", ev
+        check_seed(S2, sch, ev, acc, mid, "thorough", decorated=dec, state_axis=(part == "state"), base=(part == "base"))
+        acc.traces = acc.transitions
+        return acc
     for events, d in C.nodes(S2, (first,), depth, lean=True):
         if d.verdict != "A" or len(events) < 2:
             continue
@@ -376,13 +527,16 @@ def shard(arg, acc):
         if len(lines) > (7 if tier == "quick" else 9):
             continue
         if H.load(sch, H.render_events(events))[0] != "ok":
-            acc.extra["seed_disagreements"] += 1
+            acc.extra["seed_disagreements"] += (part == 0)
             continue
         n += 1
         if n > cap:
-            acc.extra["seeds_beyond_cap"] += 1
+            acc.extra["seeds_beyond_cap"] += (part == 0)
             continue
-        check_seed(S2, sch, events, acc, mid, tier, decorated=(n % 2 == 0))
+        if n % parts != part:
+            continue
+        check_seed(S2, sch, events, acc, mid, tier, decorated=(n % 2 == 0),
+                   state_axis=(n % STATE_AXIS_EVERY[tier] == 1 % STATE_AXIS_EVERY[tier]))
     acc.traces = acc.transitions
     return acc
 
@@ -400,15 +554,48 @@ def run(tier):
              "malformed lines, directives, defines, substitutions, unknown / repeated / refused keys, unconvertible "
              "values, unknown / misplaced / badly named headers, reused names, over-filled slots, missing required "
              "items, rejecting section datatype - sections in both spellings).  states = seeds, transitions = faulty "
-             "loads.  Non-trivial = culprit not on line 1 of the main resource." % depth,
-        bounds={"first_events": len(firsts), "depth": depth},
+             "loads.  Non-trivial = culprit not on line 1 of the main resource.  "
+             "Directive-state axis (every %s seed of each first event, and the hand-written deep seeds, at every line "
+             "position of every resource of every layout): the full product carrier (%s) x construct (%s) x history = "
+             "where the earlier %%define of the name that the faulty line refers to or repeats lives (%s; "
+             "'main-top' is the including resource for a fault in an included one, 'sibling-resource' a resource "
+             "included before, 'defined-twice' = top of main plus a legal repeat on the previous line), plus per history "
+             "a conflicting redefinition (plain and after expansion) of a name defined there, a value that is "
+             "unconvertible only through a name defined there (culprit = the value's line, not the definition's), and "
+             "per carrier a use of a name defined only on the next line." % (
+                 depth, {1: "single", 2: "2nd", 4: "4th", 8: "8th"}[STATE_AXIS_EVERY[tier]], ", ".join(CARRIERS),
+                 ", ".join(c[0] for c in CONSTRUCTS), ", ".join(HISTORIES)),
+        bounds={"first_events": len(firsts), "depth": depth,
+                "state_axis": {"carriers": CARRIERS, "constructs": [c[1] for c in CONSTRUCTS], "histories": HISTORIES,
+                               "seeds": "every %d. accepted seed per first event + %d deep seeds (plain spelling)"
+                                        % (STATE_AXIS_EVERY[tier], len(DEEP_SEEDS)),
+                               "positions": "every line position of every resource of every layout of those seeds"}},
         assumptions=["culprit line known by construction: seeds are accepted texts, one fault injected",
                      "which of two errors is reported when a fault implies two is not compared (single faults only)"])
-    core.pmap(shard, [(ev, depth, tier) for ev in firsts], run.acc, shard_budget=3000.0)
+    import os
+    if UNSET_ENV in os.environ:
+        raise core.HarnessError("environment variable %s must not be set" % UNSET_ENV)
+    deep = [(("deep", i, dec, part), depth, tier) for i in range(len(DEEP_SEEDS))
+            for dec, part in ((False, "base"), (False, "state"), (True, "base"))]
+    parts = SEED_PARTS[tier]
+    core.pmap(shard, deep + [(ev, depth, tier, k, parts) for ev in firsts for k in range(parts)], run.acc,
+              shard_budget=3000.0)
     a = run.acc
-    kinds = [k for k in a.classes if k.startswith("rejected:")]
+    kinds = [k for k in a.classes if k.startswith("rejected:") and not k.startswith("rejected:sub/")]
     run.require(len(kinds) >= 30, "only %d fault kinds exercised" % len(kinds))
     run.require(a.states >= 20, "few seeds")
+    # the directive-state axis was really walked: every carrier x construct x history cell rejected somewhere,
+    # every history with the fault in the main resource and in an included one at both depths
+    cells = [k for k in a.classes if k.startswith("rejected:sub/")]
+    want = len(CARRIERS) * len(HISTORIES) * len(CONSTRUCTS) - len(CONSTRUCTS) - BASE_CONSTRUCTS
+    prod = [k for k in cells if k.split("/")[2] in [c[0] for c in CONSTRUCTS]]
+    run.require(len(prod) == want, "directive-state product: %d of %d cells rejected" % (len(prod), want))
+    run.require(len(cells) >= want + 5 + 7 + 8, "history-dependent kinds without a bad '$': only %d" % (len(cells) - len(prod)))
+    for h in HISTORIES + ["next-line"]:
+        for w in ("main", "included-1", "included-2"):
+            n = a.extra["axis history=%s fault-in=%s" % (h, w)]
+            run.require(n >= 50, "history %s with the fault in %s: only %d loads" % (h, w, n))
+    run.require(a.extra["seeds with the directive-state axis"] >= 20, "few seeds carry the directive-state axis")
     return run
 
 
